@@ -87,21 +87,75 @@ def run_s(job, acc, monitors=MONITORS):
                                 for k, v in list(p.applies.items())[:6]}})
 
 
+def par_jobs(ctx):
+    """S-family worlds re-run with every non-empty subset of processes
+    marked _parallel (real worker processes), judged by rows only."""
+    jobs = []
+    tmenu = [0.75, 1, 2] if ctx.quick else [0.5, 0.75, 1, 2, 3]
+    pc = list(itertools.product(tmenu, ['always', 'never']))
+    scripts = [[('update', 3.25)],
+               [('run_for', 1.5, False), ('update', 2)],
+               [('run_for', 1, True), ('run_for', 2.5, False),
+                ('run_for', 1.5, True)]]
+    if not ctx.quick:
+        scripts = sched.scripts(1)
+    for procs in itertools.product(pc, repeat=2):
+        for sc in scripts:
+            for subset in ((0,), (1,), (0, 1)):
+                jobs.append(('Par', procs, sc, subset))
+    for ts, cond in pc:
+        for sc in scripts:
+            jobs.append(('Par', ((ts, cond),), sc, (0,)))
+    return jobs
+
+
+def run_par(job, acc):
+    _, procs, script, subset = job
+    spec = sched.s_world(procs, list(script) + [('end',)])
+    for i in subset:
+        spec['processes'][f'p{i}']['_parallel'] = True
+    spec['parallel'] = tuple(subset)
+    spec['family'] = 'Par'
+    ex = worlds.execute(spec, guard_factory=sched.lasso_guard,
+                        watchdog=60.0)
+    try:
+        viols = sched.mon_c01_rows(spec, ex)
+    finally:
+        if ex.engine is not None:
+            try:
+                ex.engine.end()
+            except Exception:  # noqa
+                pass
+    acc.case(key=('Par', procs, script, subset),
+             outcome=f'Par:rows={len(worlds.history_rows(ex))}')
+    acc.validated += 1
+    for v in viols:
+        acc.violate(v)
+
+
 def run_job(job, acc):
     if job[0] == 'S':
         run_s(job, acc, MONITORS)
+    elif job[0] == 'Par':
+        run_par(job, acc)
     else:
         afamily.run_a(job, acc, MONITORS)
 
 
 def run(ctx):
-    acc = ctx.map(run_job, afamily.a_jobs(ctx), chunk=1)
+    fw.preload_forkserver()
+    acc = ctx.map(run_job, par_jobs(ctx), chunk=4)
+    ctx.map(run_job, afamily.a_jobs(ctx), acc=acc, chunk=1)
     return ctx.map(run_job, s_jobs(ctx), acc=acc)
 
 
 def replay(case):
     acc = fw.Acc()
-    if case.get('family') == 'S':
+    if case.get('family') == 'Par':
+        fw.preload_forkserver()
+        run_par(('Par', case['procs'], case['script'][:-1],
+                 case['parallel']), acc)
+    elif case.get('family') == 'S':
         run_s(('S', case['procs'], case['script'], case.get('nested', False)),
               acc, MONITORS)
     else:
